@@ -133,6 +133,26 @@ func init() {
 				"totpMatchedCounter":                   {lean: "ext.matched", ret: []string{"int", "bool"}, effect: "KM.GoTypes.TotpEffect.eval"},
 				"state.SaveUserProfile":                {lean: "ext.saveResult", ret: []string{"error"}, effect: "KM.GoTypes.TotpEffect.saveProfile"}},
 			retLean: "(Bool × Option KM.Go.Err) × List KM.GoTypes.TotpEffect"},
+		// C09: unsealCA — the whole injection step under the mutex
+		glTarget{pkg: "cmd/keymasterd", name: "unsealCA", group: "Seal",
+			binders:   "(ext : KM.GoTypes.SealExt) (signerSet : Bool) (hasEdFile : Bool)",
+			paramGo:   map[string]string{"password": "string"},
+			paramLean: map[string]string{"clientName": ""},
+			traceLean: "KM.GoTypes.SealEffect",
+			stores:    map[string]string{"state.SignerIsReady": "KM.GoTypes.SealEffect.ready"},
+			paths: map[string][2]string{
+				"state.Signer != nil": {"signerSet", "bool"},
+				"state.Signer == nil": {"(!signerSet)", "bool"},
+				"state.Ed25519CAFileContent != nil && len(state.Ed25519CAFileContent) > 0": {"hasEdFile", "bool"},
+				"state.SSHCARawFileContent":  {"KM.GoTypes.KeyFile.main", "keyfile"},
+				"state.Ed25519CAFileContent": {"KM.GoTypes.KeyFile.ed25519", "keyfile"}},
+			externs: map[string]glExtern{
+				"state.Mutex.Lock":                     {lean: "()", ret: []string{}, args: []int{}, effect: "KM.GoTypes.SealEffect.lock"},
+				"state.Mutex.Unlock":                   {lean: "()", ret: []string{}, args: []int{}, effect: "KM.GoTypes.SealEffect.unlock"},
+				"pgpDecryptFileData":                   {lean: "ext.decrypt", ret: []string{"string", "error"}},
+				"state.loadSignersFromPemData":         {lean: "ext.loadResult", ret: []string{"error"}, effect: "KM.GoTypes.SealEffect.loadSigners"},
+				"state.signerPublicKeyToKeymasterKeys": {lean: "()", ret: []string{}, args: []int{}, effect: "KM.GoTypes.SealEffect.publishKeys"}},
+			retLean: "Option KM.Go.Err × List KM.GoTypes.SealEffect"},
 		// C08
 		glTarget{pkg: "cmd/keymasterd", name: "isAutomationAdmin", group: "Admin",
 			binders: "(isAdminUser : List Char → Bool) (automationAdmins : List (List Char))",
@@ -140,6 +160,14 @@ func init() {
 				"state.IsAdminUser(user)":            {"(isAdminUser user)", "bool"},
 				"state.Config.Base.AutomationAdmins": {"automationAdmins", "[]string"}},
 			retLean: "Bool"},
+		glTarget{pkg: "cmd/keymasterd", name: "IsAdminUser", group: "Admin",
+			binders:   "(ext : KM.GoTypes.AdminCacheExt)",
+			traceLean: "KM.GoTypes.AdminEffect",
+			externs: map[string]glExtern{
+				"state.isAdminCache.Get": {lean: "ext.cacheGet", ret: []string{"bool", "bool"}},
+				"state._IsAdminUser":     {lean: "ext.lookup", ret: []string{"bool", "error"}, effect: "KM.GoTypes.AdminEffect.lookup"},
+				"state.isAdminCache.Put": {lean: "()", ret: []string{}, effect: "KM.GoTypes.AdminEffect.put"}},
+			retLean: "Bool × List KM.GoTypes.AdminEffect"},
 		glTarget{pkg: "cmd/keymasterd", name: "isAutomationUser", group: "Admin",
 			binders: "(getUserGroups : List Char → List (List Char) × Option KM.Go.Err) (automationUsers automationUserGroups : List (List Char))",
 			paths: map[string][2]string{
